@@ -17,6 +17,7 @@ import (
 
 	"github.com/klauspost/compress/zstd"
 	"github.com/siglens/siglens/pkg/segment/structs"
+	"github.com/siglens/siglens/pkg/segment/writer/metrics"
 	"github.com/siglens/siglens/pkg/segment/writer/metrics/wal"
 	log "github.com/sirupsen/logrus"
 
@@ -252,7 +253,53 @@ func main() {
 			runMetaLog(r.Fork(), cfg, sum, dir, li, nflips)
 		}
 	}
+	walOrder(cfg, sum, dir)
 	sum.Write(cfg.Out)
+}
+
+// order in which RecoverWALData replays the WAL files of one block (extractWALFileInfo, through a verif hook)
+func walOrder(cfg vhlib.Config, sum *vhlib.Summary, dir string) {
+	var cases []string
+	for _, n := range []int{1, 2, 9, 10, 11, 12, 21, 101} {
+		d := filepath.Join(dir, fmt.Sprintf("order_%d", n))
+		_ = os.MkdirAll(d, 0o755)
+		for i := 0; i < n; i++ {
+			// the names initNewDpWal / rotateWAL give the files of shard 0, segment 3, block 7, in append order
+			_ = os.WriteFile(filepath.Join(d, fmt.Sprintf("shardID_0_segID_3_blockID_7_%d.wal", i)), []byte{1}, 0o644)
+		}
+		// a second block in the same directory must not disturb the first
+		_ = os.WriteFile(filepath.Join(d, "shardID_0_segID_3_blockID_8_0.wal"), []byte{1}, 0o644)
+		m, err := metrics.VerifExtractWALFileInfo(d)
+		if err != nil {
+			sum.HarnessError("extractWALFileInfo: " + err.Error())
+			continue
+		}
+		var idx []string
+		inOrder := true
+		for j, name := range m["0_3_7"] {
+			var sh, sg, bl, i int
+			fmt.Sscanf(name, "shardID_%d_segID_%d_blockID_%d_%d.wal", &sh, &sg, &bl, &i)
+			idx = append(idx, fmt.Sprint(i))
+			if i != j {
+				inOrder = false
+			}
+		}
+		sum.Eval(fmt.Sprintf("walorder/%d", n), n >= 2)
+		sum.Count("walorder/cases")
+		if len(m["0_3_7"]) != n || len(m["0_3_8"]) != 1 {
+			sum.Fail("wal_files_grouped_wrongly", fmt.Sprintf("%d files of block 7: grouped %d, block 8: %d", n, len(m["0_3_7"]), len(m["0_3_8"])), map[string]interface{}{"n": n})
+		}
+		if !inOrder {
+			cls := "wal_replay_order_not_append_order"
+			if n >= 11 {
+				cls = "wal_files_replayed_in_lexicographic_order"
+			}
+			sum.Fail(cls, fmt.Sprintf("block with %d WAL files: replay order of the file indices is %v, append order is 0..%d", n, idx, n-1), map[string]interface{}{"n": n, "order": idx})
+		}
+		cases = append(cases, fmt.Sprintf("(%d, %s)", n, vhlib.CoqList(idx)))
+	}
+	defs := "Open Scope nat_scope.\nDefinition cases : list (nat * list nat) := " + vhlib.CoqListNL(cases) + ".\n"
+	sum.WriteCaseFile(cfg.Out, "cases_walorder", "From SigM Require Import Base WalOrder.\n", defs, "check_wal_order cases", len(cases))
 }
 
 func runDPLog(r *vhlib.Rng, cfg vhlib.Config, sum *vhlib.Summary, dir string, li, nflips int) {
